@@ -219,7 +219,8 @@ def _run_hist(case):
             continue
         assigns = G.kind_assignments(es) if kind == "hist" else [tuple((c, p, "d") for c, p in es)]
         for edges in assigns:
-            events = [("run",)] + [("result", i) for i in range(n)] + [("cmdrun", i) for i in range(n)]
+            # ("extend", i): a new command consuming command i is ADDED to the program (the program is edited between runs)
+            events = [("run",)] + [("result", i) for i in range(n)] + [("cmdrun", i) for i in range(n)] + [("extend", i) for i in range(n)]
             memo = {}
             ref = [G.value(n, edges, i, names, memo) for i in range(n)]
             counter = {"n": 0}
@@ -227,9 +228,15 @@ def _run_hist(case):
             def build(hist):
                 p = _program(n, edges, names, "api")
                 returned = []
+                ext = []
                 for ev in hist:
                     if ev[0] == "run":
                         p.run()
+                        returned.append(None)
+                    elif ev[0] == "extend":
+                        xn = "x%d" % len(ext)
+                        p.add_command(VL.Node, xn, {"D0": names[ev[1]]})
+                        ext.append((xn, ev[1]))
                         returned.append(None)
                     elif ev[0] == "result":
                         returned.append(p.commands[names[ev[1]]].result)
@@ -237,18 +244,19 @@ def _run_hist(case):
                         p.commands[names[ev[1]]].run()
                         returned.append(None)
                 counter["n"] += 1
-                return (p, returned, list(VL.LOG), list(VL.FED))
+                return (p, returned, list(VL.LOG), list(VL.FED), ext)
 
             def canon(st):
-                p, returned, log, fed = st
+                p, returned, log, fed, ext = st
                 cnt = {}
                 for e, x in log:
                     if e == "enter":
                         cnt[x] = cnt.get(x, 0) + 1
-                return tuple((p.commands[names[i]].is_finished, cnt.get(names[i], 0)) for i in range(n))
+                return (tuple((p.commands[names[i]].is_finished, cnt.get(names[i], 0)) for i in range(n)),
+                        tuple(sorted((i, p.commands[xn].is_finished, cnt.get(xn, 0)) for xn, i in ext)))
 
             def invariant(hist, st):
-                p, returned, log, fed = st
+                p, returned, log, fed, ext = st
                 out = []
                 tag = {"n": n, "edges": edges, "names": names[:n], "history": hist}
                 cnt = {}
@@ -256,8 +264,25 @@ def _run_hist(case):
                     if e == "enter":
                         cnt[x] = cnt.get(x, 0) + 1
                 must = set()
+                must_ext = set()
+                seen_ext = 0
                 for ev in hist:
-                    must |= set(range(n)) if ev[0] == "run" else G.closure(n, edges, ev[1])
+                    if ev[0] == "extend":
+                        seen_ext += 1
+                    elif ev[0] == "run":
+                        must |= set(range(n))
+                        must_ext |= set(range(seen_ext))  # a run() executes every command present at that time
+                    else:
+                        must |= G.closure(n, edges, ev[1])
+                for k, (xn, i) in enumerate(ext):
+                    c = cnt.get(xn, 0)
+                    cmd = p.commands[xn]
+                    if c > 1:
+                        out.append(V("C01:hist:executed-twice", "added command %s executed %d times after history %r" % (xn, c, hist), tag=tag))
+                    if k in must_ext and (c == 0 or not cmd.is_finished):
+                        out.append(V("C01:hist:added-command-not-executed", "command %s added after earlier events was not executed by the later run(); history %r" % (xn, hist), tag=tag))
+                    if cmd.is_finished and cmd._result != (xn, (("D0", ref[i]),)):
+                        out.append(V("C01:hist:wrong-value", "added command %s has %r, reference %r" % (xn, cmd._result, (xn, (("D0", ref[i]),))), tag=tag))
                 for i in range(n):
                     nmi = names[i]
                     c = cnt.get(nmi, 0)
